@@ -155,20 +155,22 @@ type submitter struct {
 }
 
 type c13World struct {
-	s      *kernel.Sim
-	prof   c13Profile
-	pki    *pki
-	logKey *oracle.Key
-	lc     *client.LogClient
-	ctx    context.Context
-	cancel context.CancelFunc
-	subs   []*submitter
-	byName map[string]*submitter
-	nameMu sync.Mutex
-	lock   bool
-	ls     *kernel.Lockstep // spec C13lock only
-	sctTS  uint64
-	wake   chan struct{} // signalled (never blocking) whenever an attempt reaches the transport
+	s *kernel.Sim
+	// bigBodies: one run in ten, some answers (good and refusing ones) are larger than 64 KiB
+	bigBodies bool
+	prof      c13Profile
+	pki       *pki
+	logKey    *oracle.Key
+	lc        *client.LogClient
+	ctx       context.Context
+	cancel    context.CancelFunc
+	subs      []*submitter
+	byName    map[string]*submitter
+	nameMu    sync.Mutex
+	lock      bool
+	ls        *kernel.Lockstep // spec C13lock only
+	sctTS     uint64
+	wake      chan struct{} // signalled (never blocking) whenever an attempt reaches the transport
 
 	altTS uint64 // timestamp of the SCT in the latest "200alt/ws" body
 
@@ -302,6 +304,7 @@ func (w *c13World) Init(s *kernel.Sim) {
 	p.Timeout = c13Timeouts[t.Intn(len(c13Timeouts))]
 	p.LogW = []int{12, 3, 1}[t.Intn(3)]
 	p.Storm = t.Chance(1, 8)
+	w.bigBodies = t.Chance(1, 10)
 	if p.Storm { // needs redirects
 		for i, k := range c13Kinds {
 			if k == "redirect" && p.KindW[i] == 0 {
@@ -440,7 +443,14 @@ func (w *c13World) run(sb *submitter) {
 
 func (w *c13World) goodBody(sb *submitter) ([]byte, uint64) {
 	w.sctTS++
-	return mustJSON(sctObj(w.logKey, w.sctTS, sb.sub.entry, nil)), w.sctTS
+	obj := sctObj(w.logKey, w.sctTS, sb.sub.entry, nil)
+	if w.bigBodies && w.s.T.Chance(1, 4) {
+		// a correct answer that is large (a member the client does not know, just past 64 KiB or well past it): it
+		// still parses, and is still the first 200 that does
+		obj["x_note"] = strings.Repeat("n", []int{65536, 70000, 300000}[w.s.T.Intn(3)])
+		w.s.Probe("c13.big-good-body")
+	}
+	return mustJSON(obj), w.sctTS
 }
 
 // script draws one non-benign response from the tape.
@@ -530,6 +540,10 @@ func (w *c13World) script(sb *submitter, c *rtCall) *served {
 	case "other":
 		o.Status = c13Other[t.Intn(len(c13Other))]
 		o.Body = []byte(fmt.Sprintf("refused %d by %s#%d", o.Status, sb.Party, c.Idx))
+		if w.bigBodies && t.Chance(1, 4) {
+			o.Body = append(o.Body, []byte(strings.Repeat(".", []int{65536, 70000, 300000}[t.Intn(3)]))...) // an error page past 64 KiB
+			w.s.Probe("c13.big-error-body")
+		}
 		if o.Status/100 == 2 || o.Status == 199 {
 			o.Body, _ = w.goodBody(sb) // a perfectly good SCT under a status that is not 200
 		}
